@@ -734,6 +734,11 @@ where
         &mut self,
         myself: &ActorRef<FactoryMessage<TKey, TMsg>>,
     ) -> Result<(), ActorProcessingErr> {
+        if self.drain_state != DrainState::NotDraining {
+            // draining was already requested: the state never moves backwards and the
+            // draining hook has already run
+            return Ok(());
+        }
         // put us into a draining state
         tracing::debug!("Factory is moving to draining state");
         self.drain_state = DrainState::Draining;
